@@ -62,7 +62,7 @@ def seen_retry_possible(N: typing.Any) -> bool:
            for pre in ("o0 in (0, 3, 6, 7, 8, 9, 10, 11, 12)", "o0 == 1", "o0 == 2", "o0 == 4", "o0 == 5")]
     + [{"flavour": fl, "uds": False, "len": 2, "h2only": True} for fl in ("sync", "async")],
     thorough=[{"flavour": fl, "uds": u, "len": 4, "_pre": f"o0 == {a} and o1 == {b}"}
-              for fl in ("sync", "async") for u in (False, True) for a in RETRYABLE for b in RETRYABLE]
+              for fl, u in (("sync", False), ("async", True)) for a in RETRYABLE for b in RETRYABLE]
     + [{"flavour": fl, "uds": u, "len": 4, "_pre": f"o0 == {a} and o1 in (0, 3, 6, 7, 8, 9, 10, 11, 12)"}
        for fl in ("sync", "async") for u in (False, True) for a in RETRYABLE]
     + [{"flavour": fl, "uds": u, "len": 4, "_pre": "o0 in (0, 3, 6, 7, 8, 9, 10, 11, 12)"}
